@@ -162,6 +162,86 @@ pub fn run(r: &Report) {
         r.sample(sub, json!({"input_hex": "bf0081f6ff", "display": "{_ 0: [null]}"}));
         r.sample(sub, json!({"input_hex": "5f41024102ff", "display": "(_ h'02', h'02')"}));
     }
+    // ---- exact rendering of boundary leaf values (each integer / float / simple / string token has its own arm)
+    {
+        let sub = "leaf-values";
+        r.space(sub, true, "every integer of the 64-bit boundary lattice (both signs, every admissible head width), all 65536 half items, boundary single / double patterns, every simple value, byte strings over all byte values and lengths 0,1,2,23,24,256, text with quotes / backslashes / control / multi-byte characters, tags over the lattice - each alone, inside [x, x], {x: x} and [_ x]", 1);
+        let mut leaves: Vec<Item> = Vec::new();
+        for v in lattice_int() {
+            let it = Item::int(v);
+            match &it {
+                Item::Uint(n, _) => {
+                    for w in W::admissible(*n) {
+                        leaves.push(Item::Uint(*n, *w));
+                    }
+                }
+                Item::Nint(n, _) => {
+                    for w in W::admissible(*n) {
+                        leaves.push(Item::Nint(*n, *w));
+                    }
+                }
+                _ => {}
+            }
+        }
+        for h in 0..=0xffffu32 {
+            leaves.push(Item::f16(h as u16));
+        }
+        for se in 0..512u32 {
+            for m in [0u32, 1, 0x40_0000, 0x7f_ffff, 0x2a_aaaa] {
+                leaves.push(Item::f32((se << 23) | m));
+            }
+        }
+        for se in 0..4096u64 {
+            for m in [0u64, 1, 1 << 51, (1 << 52) - 1, 0x5_5555_5555_5555] {
+                leaves.push(Item::f64((se << 52) | m));
+            }
+        }
+        for x in (0..=19u8).chain(32..=255) {
+            leaves.push(Item::Simple(x));
+        }
+        leaves.extend([FALSE, TRUE, NULL, UNDEFINED]);
+        for n in [0usize, 1, 2, 23, 24, 256] {
+            leaves.push(Item::bytes(&(0..n).map(|i| (i * 37 + 0xf0) as u8).collect::<Vec<u8>>()));
+            leaves.push(Item::text(&"\u{e9}x".repeat(n)));
+        }
+        leaves.push(Item::bytes(&(0..=255u8).collect::<Vec<u8>>()));
+        for t in ["\"", "\\", "a\"b\\c", "\n\t\r", "\u{0}", "\u{7f}", "\u{4e16}\u{1f600}", "'", "h'00'", "{}[]"] {
+            leaves.push(Item::text(t));
+        }
+        for v in lattice_int() {
+            if v >= 0 {
+                leaves.push(Item::tag(v as u64, Item::uint(0)));
+            }
+        }
+        let shards = 256usize;
+        mcx::par::run_shards(
+            shards,
+            |s| {
+                let mut n = 0u64;
+                let mut ok = 0u64;
+                let mut i = s;
+                while i < leaves.len() {
+                    let l = &leaves[i];
+                    let ctxs = [l.clone(), Item::array(vec![l.clone(), l.clone()]), Item::map(vec![(l.clone(), l.clone())]), Item::Array(vec![l.clone()], Len::Indef)];
+                    for item in &ctxs {
+                        n += 1;
+                        let b = item.to_bytes();
+                        let want = render(item);
+                        match show(&b) {
+                            Ok((out, false, _)) if out == want => ok += 1,
+                            Ok((out, tripped, _)) => r.fail(sub, None, json!({"input_hex": hex(&b[..b.len().min(64)]), "item": item.diag().chars().take(120).collect::<String>()}), format!("displayed {:?}{}, the documented notation is {:?}", out.chars().take(200).collect::<String>(), if tripped { " (size bound tripped)" } else { "" }, want.chars().take(200).collect::<String>())),
+                            Err(p) => r.fail(sub, None, json!({"input_hex": hex(&b[..b.len().min(64)])}), format!("display panicked: {}", p)),
+                        }
+                    }
+                    i += shards;
+                }
+                r.add(sub, n, ok);
+                r.outcome(sub, "items", n);
+            },
+            crate::hang_handler(r.property.clone()),
+        );
+        r.sample(sub, json!({"input_hex": "3bffffffffffffffff", "display": "-18446744073709551616"}));
+    }
     r.assume("size bound constant: output <= 16 * input length + 512 bytes (the largest legitimate expansion is 11 characters per input byte); work bound 8*len+64 input accesses");
     r.assume("floats are rendered with Rust's `{:e}` of the denoted value (documented: scientific notation); text is shown unescaped between double quotes");
 }
